@@ -416,6 +416,9 @@ func (tps *TPS) waitForDeCommitmentDistribution(ctx context.Context) error {
 }
 
 func (tps *TPS) combineShares() PK {
+	tps.lock.Lock()
+	defer tps.lock.Unlock()
+
 	for _, party := range tps.parties {
 		if party == tps.Party {
 			continue
